@@ -241,10 +241,18 @@ def build_uc(unitcell, route, cell, sym):
         return unitcell.unitcell_from_parameters(parameters.parameters(**d))
     if route == "cellfromstring":
         return unitcell.cellfromstring(" ".join(repr(float(x)) for x in cell) + " " + sym)
+    if route == "ctor-array-reused":
+        # the caller's parameter buffer (a float64 array) is re-used for the next cell of a scan after the object was built:
+        # the object must keep describing the cell it was built for
+        buf = np.array(cell, dtype=np.float64)
+        uc = unitcell.unitcell(buf, sym)
+        buf[:3] *= 0.37
+        buf[3:] = 90.0
+        return uc
     return unitcell.unitcell(cell, sym)
 
 
-ROUTES = ["ctor", "ctor", "from_pars", "unitcell_from_parameters", "cellfromstring"]
+ROUTES = ["ctor", "ctor", "from_pars", "unitcell_from_parameters", "cellfromstring", "ctor-array-reused"]
 
 
 def one_case(run, seed, idx, mods):
